@@ -260,6 +260,14 @@ def worker(args):
     return hutil.export(chk)
 
 
+def dispatch(args):
+    what = args[2]
+    if what[0] == 'c19-from_buffer':
+        from harness import C19
+        return C19.worker((args[0], args[1], ('from_buffer',) + tuple(what[1:])))
+    return worker(args)
+
+
 def run(chk):
     P = (chk.prop, chk.tier)
     cases = [P + ((op,),) for op in ('finalize', 'release', 'dealloc', 'gc-none', 'release-twice', 'gc-none-then-release', 'handle')]
@@ -272,5 +280,8 @@ def run(chk):
                    'tp_traverse functions checked here)', 'new_allocator() free functions (same state machine with ca_free as destructor)',
                    'memory validity of ffi.new("struct *") while p[0] is alive (reference held in structobj: direct_newp, see C20)']
     chk.assume('CPython calls tp_dealloc / tp_finalize once per object; error reporting (_my_PyErr_WriteUnraisable) has an empty body')
+    # from_buffer keeps its source export-locked exactly while a cdata exists: creation paths (success and every error
+    # path) are the direct_from_buffer obligations of harness/C19.py
+    cases += [P + (('c19-from_buffer', 'open', 4),), P + (('c19-from_buffer', 'fixed', 4),), P + (('c19-from_buffer', 'pointer', 4),)]
     irgen.backend()
-    hutil.run_cases(chk, cases, worker)
+    hutil.run_cases(chk, cases, dispatch)
